@@ -10,6 +10,7 @@
      S k        LStore           Q k  LEnqueue                      T k  LTake -> T:<R|E>
      X k        LCancelDel (an LFire / LUserCancel is inserted if the context is not done yet)
      E k        LEnd             F k  LFire     U k  LUserCancel
+     DB k       LDirectBegin (http, fasthttp, mock)   DR k <R|E>  LDirectRet   DX k  LDirectCancel (LFire / LUserCancel inserted like X)
      so c | sf c | sc c          LSendOk / LSendFail / LSendCtx
      rr c idx   LRecvReply of the oldest reply in flight with that index (LRecvPoll inserted if needed) -> rr:<k|->
      oe w err   LOnExit; the steps that bring the goroutine there are inserted:
@@ -37,6 +38,7 @@ let pc_token = function
   | CallLife.CAlloc (c, i) -> Printf.sprintf "alloc:%d:%d" (ni c) (zi i)
   | CallLife.CStored (c, i) -> Printf.sprintf "stored:%d:%d" (ni c) (zi i)
   | CallLife.CEnq (c, i) -> Printf.sprintf "enq:%d:%d" (ni c) (zi i)
+  | CallLife.CDirect -> "direct"
   | CallLife.CRet r | CallLife.CDone r ->
       (match r with CallLife.RResp -> "R" | CallLife.RErr -> "E" | CallLife.RCancel -> "C")
 
@@ -104,6 +106,18 @@ let run line =
                else ignore (step k "U(implicit)" (CallLife.LUserCancel (n_ kk)))
            | _ -> ());
           if step k "X" (CallLife.LCancelDel (n_ kk)) then say "."; go (k + 1) r
+      | "DB" :: a :: r -> if step k "DB" (CallLife.LDirectBegin (n_ (int_of_string a))) then say "."; go (k + 1) r
+      | "DR" :: a :: o :: r ->
+          let res = if o = "R" then CallLife.RResp else CallLife.RErr in
+          if step k "DR" (CallLife.LDirectRet (n_ (int_of_string a), res)) then say "."; go (k + 1) r
+      | "DX" :: a :: r ->
+          let kk = int_of_string a in
+          (match caller kk with
+           | Some cl when not cl.CallLife.cancelled ->
+               if cl.CallLife.armed then ignore (step k "F(implicit)" (CallLife.LFire (n_ kk)))
+               else ignore (step k "U(implicit)" (CallLife.LUserCancel (n_ kk)))
+           | _ -> ());
+          if step k "DX" (CallLife.LDirectCancel (n_ kk)) then say "."; go (k + 1) r
       | "E" :: a :: r -> if step k "E" (CallLife.LEnd (n_ (int_of_string a))) then say "."; go (k + 1) r
       | "F" :: a :: r -> if step k "F" (CallLife.LFire (n_ (int_of_string a))) then say "."; go (k + 1) r
       | "U" :: a :: r -> if step k "U" (CallLife.LUserCancel (n_ (int_of_string a))) then say "."; go (k + 1) r
